@@ -139,8 +139,14 @@ def run(ctx):
         ctx.missing("R-SIB", "hash", fn)
     else:
         ctx.saw_fn(fn)
-        hs = [c for c in b.calls() if c.name == "hash"]
-        ok = len(hs) == 1 and K.arg_renders(hs[0])[0] == "self.0"
+        # what is fed to the hasher: `self.0.hash(state)` or, the same thing spelt out, `state.write_u32(self.0)` (u32's own
+        # Hash impl is write_u32) — every feeding call takes the wrapped value and nothing else is fed
+        hs = [c for c in b.calls() if not b.is_cleanup(c.bb) and (c.name == "hash" or (c.name or "").startswith("write_"))]
+        fed = []
+        for c in hs:
+            a = K.arg_renders(c)
+            fed.append(a[0] if c.name == "hash" else (a[1] if len(a) > 1 else None))
+        ok = len(hs) == 1 and fed[0] == "self.0" and (hs[0].name in ("hash", "write_u32"))
         ctx.ob("R-SIB", "Serial::hash-field", ok, "Hash feeds exactly the field Eq compares (self.0)", where=b.loc)
     # serial arithmetic happens in Serial's own functions only: nobody else assigns or mutably borrows the wrapped integer
     # (an in-place `serial.0 += 1` elsewhere overflows at 0xFFFF_FFFF instead of wrapping), and nobody else builds a Serial
